@@ -86,16 +86,31 @@ ROOT_PATTERNS = {
 WEIGHTS = ["1/2", "3", None, "0.25"]
 
 
-def tree_prefix(k, rooting, weights, tcom):
+ZERO_WEIGHTS = ["0", "0.0", "0/5"]
+ZERO_PATTERNS = ("zero-first", "zero-middle", "zero-last", "zero-all")
+
+
+def weight_token(k, weights, n=None, zrot=0):
+    """weights: False | True (the WEIGHTS cycle) | one of ZERO_PATTERNS (tree(s) at that place carry a
+    weight comment whose value is zero, written as 0, 0.0 or 0/5 - rotation zrot -, the others the cycle)"""
+    if not weights:
+        return None
+    if weights in ZERO_PATTERNS:
+        n = n or 1
+        zero_at = {"zero-first": [0], "zero-middle": [n // 2], "zero-last": [n - 1], "zero-all": list(range(n))}[weights]
+        if k in zero_at:
+            return ZERO_WEIGHTS[(k + zrot) % len(ZERO_WEIGHTS)]
+    return WEIGHTS[k % len(WEIGHTS)]
+
+
+def tree_prefix(k, rooting, weights, tcom, n=None, zrot=0):
     """comment tokens written between '=' (or statement start) and the '(' of tree k"""
     parts = []
     rp = ROOT_PATTERNS[rooting]
     r = rp[k % len(rp)]
     rt = "[&%s]" % r if r else None
-    wt = None
-    if weights:
-        w = WEIGHTS[k % len(WEIGHTS)]
-        wt = "[&W %s]" % w if w else None
+    w = weight_token(k, weights, n, zrot)
+    wt = "[&W %s]" % w if w else None
     seq = [rt, wt] if k % 2 == 0 else [wt, rt]
     parts.extend(x for x in seq if x)
     if tcom in ("plain", "both"):
@@ -123,7 +138,7 @@ def newick_doc(p):
             if k % 2 == 1 and t == "B":
                 t = "b"           # case-insensitive re-use of the same taxon
             return t
-        pre = tree_prefix(k, p["rooting"], p["weights"], p["com"])
+        pre = tree_prefix(k, p["rooting"], p["weights"], p["com"], n, p.get("zrot", 0))
         body = newick_body(shape, tok, p["lens"], p["ilab"], p["com"])
         s = (pre + " " if pre else "") + body
         last = k == n - 1
@@ -223,7 +238,7 @@ def nexus_doc(p):
                 if k % 2 == 1 and t in ("B", "F"):
                     t = t.lower()
                 return t
-            pre = tree_prefix(k, p["rooting"], p["weights"], com)
+            pre = tree_prefix(k, p["rooting"], p["weights"], com, sum(layout), p.get("zrot", 0))
             body = newick_body(shape, tok, p["lens"], p["ilab"], com)
             kw = ["TREE", "Tree", "tree"][k % 3]
             name = "t%d" % (k + 1)
